@@ -288,6 +288,19 @@ pub fn run_modes(base: u64, cfg: &Cfg, calls: &[Value], others: &[(Cfg, Vec<Valu
     cmp("sink-cursor", via_cursor(cfg, calls));
     cmp("sink-bufwriter-file", via_file(cfg, calls, workdir, base));
     cmp("sink-one-byte-writes", Some(exec::run_instance(base + 4, cfg, calls, &RunOpts { project: false, sink_chunk: 1, ..RunOpts::default() })));
+    {
+        // a sink that reports Interrupted on every third write call and accepts short writes in between
+        use crate::exec::Resp;
+        let mut script = Vec::new();
+        for k in 0..3000 {
+            script.push(match k % 3 {
+                1 => Resp::Intr,
+                2 => Resp::Accept(5),
+                _ => Resp::Accept(usize::MAX),
+            });
+        }
+        cmp("sink-interrupting", Some(exec::run_instance(base + 4, cfg, calls, &RunOpts { project: false, script, ..RunOpts::default() })));
+    }
     cmp("muxer-moved-between-threads", via_moving(cfg, calls));
     // (v) alias paths
     cmp("builder-aliases", Some(exec::run_instance(base + 5, cfg, calls, &RunOpts { project: false, style: BuildStyle::Alias, ..RunOpts::default() })));
